@@ -434,6 +434,50 @@ pub fn render_expr(e: &E) -> String {
     r.out
 }
 
+/// does the expression mention identifier `n` anywhere (conservative: nested functions included)?
+pub fn mentions_e(e: &E, n: &str) -> bool {
+    match e {
+        E::Id(x) => x == n,
+        E::Arr(xs) => xs.iter().any(|x| mentions_e(x, n)),
+        E::Map(ps) => ps.iter().any(|(k, v)| mentions_e(k, n) || mentions_e(v, n)),
+        E::Un(_, x) | E::Mark(x) => mentions_e(x, n),
+        E::Bin(_, a, b) | E::Idx(a, b) | E::Assign(a, b) => mentions_e(a, n) || mentions_e(b, n),
+        E::Call(f, args) => mentions_e(f, n) || args.iter().any(|x| mentions_e(x, n)),
+        E::If(c, t, el) => {
+            mentions_e(c, n)
+                || mentions_b(t, n)
+                || match el.as_deref() {
+                    None => false,
+                    Some(Else::Block(b)) => mentions_b(b, n),
+                    Some(Else::If(x)) => mentions_e(x, n),
+                }
+        }
+        E::Match(s, arms) => {
+            mentions_e(s, n)
+                || arms.iter().any(|a| a.block.as_ref().map(|b| mentions_b(b, n)).unwrap_or(false) || a.expr.as_ref().map(|x| mentions_e(x, n)).unwrap_or(false))
+        }
+        E::Fn(ps, b) => ps.iter().any(|p| p == n) || mentions_b(b, n),
+        _ => false,
+    }
+}
+
+pub fn mentions_b(b: &[S], n: &str) -> bool {
+    b.iter().any(|s| mentions_s(s, n))
+}
+
+pub fn mentions_s(s: &S, n: &str) -> bool {
+    match s {
+        S::Let(x, e) => x == n || mentions_e(e, n),
+        S::Expr(e) => mentions_e(e, n),
+        S::Ret(e) => e.as_ref().map(|x| mentions_e(x, n)).unwrap_or(false),
+        S::Block(b) | S::Loop(_, b) => mentions_b(b, n),
+        S::While(_, c, b) => mentions_e(c, n) || mentions_b(b, n),
+        S::FnDef(x, ps, b) => x == n || ps.iter().any(|p| p == n) || mentions_b(b, n),
+        S::Raw(t) => t.contains(n),
+        _ => false,
+    }
+}
+
 // convenience constructors
 pub fn id(n: &str) -> E {
     E::Id(n.to_string())
